@@ -373,6 +373,8 @@ EXPR_CONTEXTS = {
     'except_type': 'try:\n    x = 1\nexcept (E1 if {e} else E2):\n    pass',
     'return_in_loop': 'for i in n():\n    if d():\n        return {e}',
     'nested_lambda_default': 'x = (lambda p, q=({e}): q)(a)',
+    'param_annotation': 'def g(p: {e}, *q: {e}):\n    return p\nx = g(a)',
+    'return_annotation': 'def g(p) -> {e}:\n    return p\nx = g',
 }
 
 # statement-shaped constructs placed in statement contexts
